@@ -80,11 +80,6 @@ for eps, tier in [("125", "thorough"), ("150", "thorough")]:
     h("C17", "c17", f"c17_dedup_eps_n2_n3_e{eps}", "thorough", 1200,
       f"dedup_vertices_epsilon_n2 (batch path): n=3, D=2, coordinates in {{-1,0,1}}, eps={int(eps) / 100}: same laws",
       ["core::delaunay_triangulation::dedup_vertices_epsilon_n2", "core::util::deduplication::coords_within_epsilon"])
-h("C17", "c17", "c17_simplex_selection_n4", "thorough", 1800,
-  "select_balanced_simplex_indices + reorder_vertices_for_simplex: n=4, D=2, coordinates in {-2..2}: indices distinct and in "
-  "range, reordered list is a permutation starting with the selected vertices",
-  ["core::delaunay_triangulation::select_balanced_simplex_indices", "core::delaunay_triangulation::reorder_vertices_for_simplex"],
-  mem_gb=28)
 h(["C17", "C19"], "c17", "c17_reorder_rejects_bad_indices_n4", "quick", 600,
   "reorder_vertices_for_simplex: n=4, D=2, ANY three usize indices: Some iff distinct and in range, no panic",
   ["core::delaunay_triangulation::reorder_vertices_for_simplex"])
